@@ -94,8 +94,8 @@ target("breezy/clean_tree.py::_filter_out_nested_controldirs",
        params=dict(deletables=ITEMS), locals=dict(result=ITEMS), result=ITEMS,
        requires=lambda c: forall([STR], lambda p: Implies(IsBranch(p), ContainsBranch(p))),
        loops={1: loop(r"for path, subp in deletables", prefix="seen",
-                      inv=lambda c: And(Implies(AllAllowed(c.seen), AllAllowed(c.local("result"))), NoBranchDirs(c.local("result")),
-                                        Implies(AllNotX0(c.seen), AllNotX0(c.local("result")))))},
+                      inv=lambda c: And(Implies(AllAllowed(c.seen), AllAllowed(c.var("result"))), NoBranchDirs(c.var("result")),
+                                        Implies(AllNotX0(c.seen), AllNotX0(c.var("result")))))},
        ensures={"subsequence_of_allowed": lambda c: Implies(AllAllowed(c.old.deletables), AllAllowed(c.result)),
                 "nothing_new": lambda c: Implies(AllNotX0(c.old.deletables), AllNotX0(c.result)),
                 "no_branch_at_a_listed_directory": lambda c: NoBranchDirs(c.result),
@@ -164,3 +164,30 @@ target("breezy/clean_tree.py::clean_tree",
        canary=lambda c: c.g.deleted == c.old.g.deleted, equivalent_mutants=LOG_EQUIV)
 
 undecided("that tree.extras() itself lists only unversioned paths (bzr and git working tree implementations are external/unverified)")
+
+# ---- where tree.extras() looks (bzr working trees): only inside real directories of the tree.
+# A versioned directory that was replaced on disk by a symlink must not be listed: its contents lie outside the tree.
+ENTRY = Opaque("Entry")
+attr_sort("Entry.kind", STR)
+IsRealDir = ufunc("IsRealDir", STR, BOOL)      # osutils.isdir: lstat-based, false for a symlink to a directory
+Unfs = ufunc("Unfs", ANY, STR)
+assumed("self.iter_entries_by_dir", pure=True, result=Seq(Tup(STR, ENTRY)), raises={"Exception": None})
+assumed("self.abspath", pure=True, result=STR)
+assumed("osutils.isdir", pure=True, returns=lambda c: IsRealDir(c.args[0]))
+assumed("inv.get_children", pure=True, result=MapS(STR, ANY), raises={"Exception": None})
+assumed("os.fsencode", pure=True, ensures=lambda c: Unfs(c.result) == c.args[0])
+assumed("os.listdir", result=Seq(ANY), requires=lambda c: IsRealDir(Unfs(c.args[0])),
+        note="only real directories (never symlinks) are listed, so nothing outside the tree is ever reported as an extra")
+assumed("os.fsdecode", pure=True, result=STR)
+assumed("self.controldir.is_control_filename", pure=True, result=BOOL)
+assumed("osutils.normalized_filename", pure=True, result=Tup(STR, BOOL))
+assumed("osutils.pathjoin", pure=True, result=STR)
+target("breezy/bzr/workingtree.py::InventoryWorkingTree.extras", generator=STR,
+       locals=dict(fl=Seq(STR)),
+       loops={1: loop(r"for path, dir_entry in self\.iter_entries_by_dir\(\)", lambda c: TRUE),
+              2: loop(r"for subf in ", lambda c: TRUE),
+              3: loop(r"for subf in fl", lambda c: TRUE)},
+       ensures=lambda c: TRUE, raises={"Exception": True},
+       equivalent_mutants={r".": "only the call.pre of os.listdir (never list a symlinked directory) is claimed for extras(); "
+                                 "which unversioned names it reports is not under contract"},
+       note="safety precondition only: os.listdir is reached only for lstat-real directories")
